@@ -35,6 +35,9 @@ type ChartDef struct {
 	Res   map[string]ResDef  `json:"res"`
 	Hooks map[string]HookDef `json:"hooks"`
 	CRDs  []string           `json:"crds"`
+	// OneFile puts all manifest resources into ONE template file, separated by "--- # <id>" lines (a separator
+	// with a trailing comment is valid YAML); otherwise every resource has its own file.
+	OneFile bool `json:"onefile"`
 }
 
 type ChartLib map[string]ChartDef
@@ -147,8 +150,19 @@ func BuildChart(name string, d ChartDef) (*chart.Chart, error) {
 		ids = append(ids, id)
 	}
 	sort.Strings(ids)
-	for _, id := range ids {
-		files = append(files, &loader.BufferedFile{Name: "templates/" + id + ".yaml", Data: []byte(resTemplate(id, d.Res[id]))})
+	if d.OneFile && len(ids) > 0 {
+		var sb strings.Builder
+		for i, id := range ids {
+			if i > 0 {
+				sb.WriteString("--- # " + id + "\n")
+			}
+			sb.WriteString(resTemplate(id, d.Res[id]))
+		}
+		files = append(files, &loader.BufferedFile{Name: "templates/all.yaml", Data: []byte(sb.String())})
+	} else {
+		for _, id := range ids {
+			files = append(files, &loader.BufferedFile{Name: "templates/" + id + ".yaml", Data: []byte(resTemplate(id, d.Res[id]))})
+		}
 	}
 	hids := make([]string, 0)
 	for id := range d.Hooks {
